@@ -270,3 +270,162 @@ Example entry_stability_hyp_satisfiable :
   nth_error (((0, Some 2) :: nil) :: ((0, Some 4) :: (1, Some 3) :: (0, None) :: nil) :: nil) 1 = Some ((0, Some 4) :: (1, Some 3) :: (0, None) :: nil) /\
   SweepM.finite_bars (SweepM.strip_trailing_inf ((0, Some 4) :: (1, Some 3) :: (0, None) :: nil)) = Some ((0, 4) :: (1, 3) :: nil).
 Proof. split; reflexivity. Qed.
+
+(* ================= the triangle inequality (Minkowski) of the p-norm, every integer p >= 1 =================
+   Proofs/PNormMinkowskiR.v (convexity of x^p, linear form of Minkowski for RInt), PNormMinkowskiInt.v (a whole depth as one
+   Riemann integral; identities at all rational abscissae hold at all real ones), PNormMinkowski.v (sum over the depths,
+   roots, the C09 models of + and -).  norm_pow p L is the p-th power of the norm, so the root-free statement
+   "||L||^p <= A^p -> ||M||^p <= B^p -> ||S||^p <= (A+B)^p for all rationals A, B >= 0" is the triangle inequality; the
+   statement with real p-th roots follows it.  The theorems below depend on the standard-library axioms of the classical
+   reals (the proofs integrate), also where the statement is over Q. *)
+From Persim Require Proofs.PNormMinkowskiR Proofs.PNormMinkowskiInt Proofs.PNormMinkowski.
+
+(* T2, "equals the integral it names" for a whole depth: for strictly increasing abscissae, depth_pow p l is the Riemann
+   integral of |f|^p, f the breakpoint list read as a function of a real abscissa (0 outside the breakpoints), over ANY
+   interval [lo, hi] that contains the breakpoints; norm_pow is by definition the sum of these over the depths *)
+Theorem depth_pow_is_RInt : forall (p : nat) (l : list pt) (lo hi : R), (1 <= p)%nat -> incr l -> (lo <= hi)%R ->
+  (forall q, In q l -> (lo <= Q2R (fst q) <= hi)%R) ->
+  is_RInt (fun t => (Rabs (LandscapeRealS.pl_evalR (map LandscapeRealS.rp l) t) ^ p)%R) lo hi (Q2R (depth_pow p l)).
+Proof. exact PNormMinkowski.depth_pow_RInt. Qed.
+Print Assumptions depth_pow_is_RInt.
+
+(* an identity c = a + b between breakpoint lists that holds at every rational abscissa holds at every real abscissa *)
+Theorem pointwise_sum_at_every_real_t : forall a b c : list pt, incr a -> incr b -> incr c ->
+  (forall t : Q, pl_eval c t == pl_eval a t + pl_eval b t) ->
+  forall t : R, (LandscapeRealS.pl_evalR (map LandscapeRealS.rp c) t =
+                 LandscapeRealS.pl_evalR (map LandscapeRealS.rp a) t + LandscapeRealS.pl_evalR (map LandscapeRealS.rp b) t)%R.
+Proof. exact PNormMinkowskiInt.pointwise_sum_Q_to_R. Qed.
+Print Assumptions pointwise_sum_at_every_real_t.
+
+(* Minkowski for one depth: c any breakpoint list that is pointwise the sum of a and b (no hypothesis on the end ordinates) *)
+Theorem pnorm_minkowski_depth : forall p (a b c : list pt) (A B : Q), (1 <= p)%nat -> incr a -> incr b -> incr c ->
+  (forall t : Q, pl_eval c t == pl_eval a t + pl_eval b t) ->
+  0 <= A -> 0 <= B -> depth_pow p a <= pw A p -> depth_pow p b <= pw B p -> depth_pow p c <= pw (A + B) p.
+Proof. exact PNormMinkowski.minkowski_depth. Qed.
+Print Assumptions pnorm_minkowski_depth.
+
+(* ... with c the sum the C09 model of union_crit_pairs computes for one depth (either variant; C09.add_pointwise) *)
+Theorem pnorm_minkowski_add_depth : forall v p a b, (1 <= p)%nat -> LandArithS.wf a -> LandArithS.wf b ->
+  exists c, LandArithM.add_depth v a b = Some c /\
+    forall A B : Q, 0 <= A -> 0 <= B -> depth_pow p a <= pw A p -> depth_pow p b <= pw B p -> depth_pow p c <= pw (A + B) p.
+Proof. exact PNormMinkowski.minkowski_add_depth. Qed.
+Print Assumptions pnorm_minkowski_add_depth.
+
+(* Minkowski for landscapes: S is depth by depth and at every abscissa the sum of L and M; the three may have different
+   numbers of depths, a missing depth is the zero function (evalL, Spec/LandArithS.v) *)
+Theorem pnorm_minkowski : forall p (L M S : landscape) (A B : Q), (1 <= p)%nat -> wf L -> wf M -> wf S ->
+  (forall k t, LandArithS.evalL S k t == LandArithS.evalL L k t + LandArithS.evalL M k t) ->
+  0 <= A -> 0 <= B -> norm_pow p L <= pw A p -> norm_pow p M <= pw B p -> norm_pow p S <= pw (A + B) p.
+Proof. exact PNormMinkowski.minkowski_sum. Qed.
+Print Assumptions pnorm_minkowski.
+
+(* ... and for the difference: || L - M || <= || L || + || M || *)
+Theorem pnorm_minkowski_difference : forall p (L M S : landscape) (A B : Q), (1 <= p)%nat -> wf L -> wf M -> wf S ->
+  (forall k t, LandArithS.evalL S k t == LandArithS.evalL L k t - LandArithS.evalL M k t) ->
+  0 <= A -> 0 <= B -> norm_pow p L <= pw A p -> norm_pow p M <= pw B p -> norm_pow p S <= pw (A + B) p.
+Proof. exact PNormMinkowski.minkowski_diff. Qed.
+Print Assumptions pnorm_minkowski_difference.
+
+(* the norm as a real number: the unique r >= 0 with r^p = norm_pow p L *)
+Theorem pnorm_real_exists_unique : forall p (L : landscape), (1 <= p)%nat -> wf L ->
+  exists r : R, ((0 <= r)%R /\ (r ^ p)%R = Q2R (norm_pow p L)) /\
+    forall r' : R, (0 <= r')%R /\ (r' ^ p)%R = Q2R (norm_pow p L) -> r' = r.
+Proof. exact PNormMinkowski.norm_exists. Qed.
+Print Assumptions pnorm_real_exists_unique.
+
+(* the triangle inequality with real p-th roots: || L + M ||_p <= || L ||_p + || M ||_p *)
+Theorem pnorm_triangle_inequality : forall p (L M S : landscape) (rL rM rS : R), (1 <= p)%nat -> wf L -> wf M -> wf S ->
+  (forall k t, LandArithS.evalL S k t == LandArithS.evalL L k t + LandArithS.evalL M k t) ->
+  (0 <= rL)%R /\ (rL ^ p)%R = Q2R (norm_pow p L) -> (0 <= rM)%R /\ (rM ^ p)%R = Q2R (norm_pow p M) ->
+  (0 <= rS)%R /\ (rS ^ p)%R = Q2R (norm_pow p S) -> (rS <= rL + rM)%R.
+Proof. exact PNormMinkowski.minkowski_sum_R. Qed.
+Print Assumptions pnorm_triangle_inequality.
+
+Theorem pnorm_triangle_inequality_difference : forall p (L M S : landscape) (rL rM rS : R), (1 <= p)%nat -> wf L -> wf M -> wf S ->
+  (forall k t, LandArithS.evalL S k t == LandArithS.evalL L k t - LandArithS.evalL M k t) ->
+  (0 <= rL)%R /\ (rL ^ p)%R = Q2R (norm_pow p L) -> (0 <= rM)%R /\ (rM ^ p)%R = Q2R (norm_pow p M) ->
+  (0 <= rS)%R /\ (rS ^ p)%R = Q2R (norm_pow p S) -> (rS <= rL + rM)%R.
+Proof. exact PNormMinkowski.minkowski_diff_R. Qed.
+Print Assumptions pnorm_triangle_inequality_difference.
+
+(* on the models: X + Y (C09 model of __add__, either variant, operands with possibly different numbers of depths) evaluates,
+   the C10 model of p_norm returns on all three, and the returned p-th powers satisfy Minkowski *)
+Theorem pnorm_minkowski_model_add : forall v p X Y, (1 <= p)%nat ->
+  LandArithS.wfL (LandArithM.e_cp X) -> LandArithS.wfL (LandArithM.e_cp Y) -> LandArithM.e_deg X = LandArithM.e_deg Y ->
+  exists R nx ny nr, LandArithM.e_add v X Y = LandArithM.Ok R /\
+    norm_pow_m p (LandArithM.e_cp X) = Some nx /\ norm_pow_m p (LandArithM.e_cp Y) = Some ny /\
+    norm_pow_m p (LandArithM.e_cp R) = Some nr /\
+    forall A B : Q, 0 <= A -> 0 <= B -> nx <= pw A p -> ny <= pw B p -> nr <= pw (A + B) p.
+Proof. exact PNormMinkowski.minkowski_e_add. Qed.
+Print Assumptions pnorm_minkowski_model_add.
+
+Theorem pnorm_minkowski_model_sub : forall v p X Y, (1 <= p)%nat ->
+  LandArithS.wfL (LandArithM.e_cp X) -> LandArithS.wfL (LandArithM.e_cp Y) -> LandArithM.e_deg X = LandArithM.e_deg Y ->
+  exists R nx ny nr, LandArithM.e_sub v X Y = LandArithM.Ok R /\
+    norm_pow_m p (LandArithM.e_cp X) = Some nx /\ norm_pow_m p (LandArithM.e_cp Y) = Some ny /\
+    norm_pow_m p (LandArithM.e_cp R) = Some nr /\
+    forall A B : Q, 0 <= A -> 0 <= B -> nx <= pw A p -> ny <= pw B p -> nr <= pw (A + B) p.
+Proof. exact PNormMinkowski.minkowski_e_sub. Qed.
+Print Assumptions pnorm_minkowski_model_sub.
+
+(* the p-norm distance d(X, Y) = || X - Y ||_p of three landscapes: d(X, Z) <= d(X, Y) + d(Y, Z), root-free and with real
+   roots; dxy, dyz, dxz are the p-th powers the p_norm model returns on the three model differences *)
+Theorem pnorm_triangle : forall v p X Y Z, (1 <= p)%nat ->
+  LandArithS.wfL (LandArithM.e_cp X) -> LandArithS.wfL (LandArithM.e_cp Y) -> LandArithS.wfL (LandArithM.e_cp Z) ->
+  LandArithM.e_deg X = LandArithM.e_deg Y -> LandArithM.e_deg Y = LandArithM.e_deg Z ->
+  exists XY YZ XZ dxy dyz dxz,
+    LandArithM.e_sub v X Y = LandArithM.Ok XY /\ LandArithM.e_sub v Y Z = LandArithM.Ok YZ /\ LandArithM.e_sub v X Z = LandArithM.Ok XZ /\
+    norm_pow_m p (LandArithM.e_cp XY) = Some dxy /\ norm_pow_m p (LandArithM.e_cp YZ) = Some dyz /\
+    norm_pow_m p (LandArithM.e_cp XZ) = Some dxz /\
+    (forall A B : Q, 0 <= A -> 0 <= B -> dxy <= pw A p -> dyz <= pw B p -> dxz <= pw (A + B) p) /\
+    (forall r1 r2 r3 : R, (0 <= r1)%R /\ (r1 ^ p)%R = Q2R dxy -> (0 <= r2)%R /\ (r2 ^ p)%R = Q2R dyz ->
+                          (0 <= r3)%R /\ (r3 ^ p)%R = Q2R dxz -> (r3 <= r1 + r2)%R).
+Proof. exact PNormMinkowski.distance_triangle. Qed.
+Print Assumptions pnorm_triangle.
+
+(* non-vacuity.  a = tent with apex (1,1) on [0,3], b = inverted tent with apex (2,-1) on [0,3], p = 2: both have
+   ||.||^2 = 1 = 1^2 (A = B = 1); their sum c (computed by the C09 model) has ordinates 1/2 at 1 and -1/2 at 2 - a segment
+   that crosses the axis - and ||c||^2 = 1/4 <= (1+1)^2; all hypotheses of pnorm_minkowski_depth hold for a, b, c *)
+Example minkowski_depth_hyp_satisfiable :
+  let a := [(0, 0); (1, 1); (3, 0)] in let b := [(0, 0); (2, -1); (3, 0)] in
+  exists c, LandArithM.add_depth LandArithM.Fixed a b = Some c /\
+    incr a /\ incr b /\ incr c /\ (forall t : Q, pl_eval c t == pl_eval a t + pl_eval b t) /\
+    0 <= 1 /\ depth_pow 2 a <= pw 1 2 /\ depth_pow 2 b <= pw 1 2 /\
+    depth_pow 2 c == 1 # 4 /\ crosses (snd (nth 1 c (0, 0))) (snd (nth 2 c (0, 0))) = true /\
+    LandArithS.wf a /\ LandArithS.wf b.
+Proof. cbv zeta.
+  assert (Wa : LandArithS.wf [(0, 0); (1, 1); (3, 0)]) by (repeat split; try discriminate; reflexivity).
+  assert (Wb : LandArithS.wf [(0, 0); (2, -1); (3, 0)]) by (repeat split; try discriminate; reflexivity).
+  destruct (LandArithP.add_depth_wf LandArithM.Fixed _ _ Wa Wb) as (c & E & Wc & H).
+  exists c. split. exact E. split. apply Wa. split. apply Wb. split. apply Wc. split. exact H.
+  assert (E' := E). vm_compute in E'. injection E' as E'. subst c.
+  split. discriminate. split. vm_compute; discriminate. split. vm_compute; discriminate.
+  split. vm_compute; reflexivity. split. vm_compute; reflexivity. split; assumption. Qed.
+
+(* landscapes with different numbers of depths, p = 3, X = [a; tent (2,1) on [1,3]], Y = [b]: ||X||^3 = 5/4 <= (11/10)^3,
+   ||Y||^3 = 3/4 <= 1^3; the model sum and difference evaluate and have ||X+Y||^3 = 19/32, ||X-Y||^3 = 89/16 <= (21/10)^3 *)
+Example minkowski_model_hyp_satisfiable :
+  let X := LandArithM.mkE 1 [[(0, 0); (1, 1); (3, 0)]; [(1, 0); (2, 1); (3, 0)]] in
+  let Y := LandArithM.mkE 1 ([(0, 0); (2, -1); (3, 0)] :: nil) in
+  LandArithS.wfL (LandArithM.e_cp X) /\ LandArithS.wfL (LandArithM.e_cp Y) /\ LandArithM.e_deg X = LandArithM.e_deg Y /\
+  (exists nx ny, norm_pow_m 3 (LandArithM.e_cp X) = Some nx /\ norm_pow_m 3 (LandArithM.e_cp Y) = Some ny /\
+     nx == 5 # 4 /\ ny == 3 # 4 /\ nx <= pw (11 # 10) 3 /\ ny <= pw 1 3) /\
+  match LandArithM.e_add LandArithM.Fixed X Y, LandArithM.e_sub LandArithM.Fixed X Y with
+  | LandArithM.Ok R, LandArithM.Ok D =>
+      match norm_pow_m 3 (LandArithM.e_cp R), norm_pow_m 3 (LandArithM.e_cp D) with
+      | Some nr, Some nd => Qeq_bool nr (19 # 32) && Qeq_bool nd (89 # 16) && Qle_bool nd (pw ((11 # 10) + 1) 3)
+      | _, _ => false end
+  | _, _ => false end = true.
+Proof. cbv zeta. split; [|split; [|split; [|split]]].
+  - repeat constructor; try discriminate; reflexivity.
+  - repeat constructor; try discriminate; reflexivity.
+  - reflexivity.
+  - eexists. eexists. split. vm_compute. reflexivity. split. vm_compute. reflexivity.
+    split. reflexivity. split. reflexivity. split; vm_compute; discriminate.
+  - vm_compute. reflexivity. Qed.
+
+(* the real norm: for L = [a] and p = 2 it is 1 *)
+Example pnorm_real_instance : (0 <= 1)%R /\ (1 ^ 2)%R = Q2R (norm_pow 2 ([(0, 0); (1, 1); (3, 0)] :: nil)).
+Proof. split. apply Rle_0_1.
+  assert (E : norm_pow 2 ([(0, 0); (1, 1); (3, 0)] :: nil) == 1) by (vm_compute; reflexivity).
+  rewrite (Qeq_eqR _ _ E). unfold Q2R. simpl. field. Qed.
